@@ -140,7 +140,7 @@ pub fn c06(tier: Tier) -> i32 {
 
 pub fn c10(tier: Tier) -> i32 {
     let mut run = Run::new("C10", tier, "model_checking", "history-engines+refusal-monitor");
-    let (stats, found, models) = history_engines(tier, tier.pick(40.0, 1200.0));
+    let (stats, found, models) = history_engines(tier, tier.pick(34.0, 1200.0));
     let others = add_found(&mut run, "C10", &found);
     run.assume("a refusal is a reply that is an error; panics are recorded separately and are not refusals");
     run.assume("state = canonical JSON of every channel slot, the node state (invoices, payments, velocity controls normalised to the current time), the tracker with all monitors, and the store contents (versions dropped)");
@@ -149,7 +149,7 @@ pub fn c10(tier: Tier) -> i32 {
 
 pub fn c11(tier: Tier) -> i32 {
     let mut run = Run::new("C11", tier, "fault_enumeration", "history-engines+durability-monitor");
-    let (stats, found, models) = history_engines(tier, tier.pick(40.0, 1200.0));
+    let (stats, found, models) = history_engines(tier, tier.pick(34.0, 1200.0));
     let others = add_found(&mut run, "C11", &found);
     run.assume("crash points are between requests: after every request of every explored history a second signer is restored from a deep copy of the store and compared field by field with the live one");
     let mut cov = mc_coverage(&stats, &models, json!({"violations_of_other_properties_seen": others}));
